@@ -1630,9 +1630,8 @@ const XMLCh XMLUni::fgDOMWRTDiscardDefaultContent[] =
 {
 	chLatin_d, chLatin_i, chLatin_s, chLatin_c, chLatin_a, chLatin_r,
     chLatin_d, chDash,    chLatin_d, chLatin_e, chLatin_f, chLatin_a,
-	chLatin_u, chLatin_l, chLatin_l, chLatin_t, chDash,    chLatin_c,
-	chLatin_o, chLatin_n, chLatin_t, chLatin_e, chLatin_n, chLatin_t,
-	chNull
+	chLatin_u, chLatin_l, chLatin_t, chDash,    chLatin_c, chLatin_o,
+	chLatin_n, chLatin_t, chLatin_e, chLatin_n, chLatin_t, chNull
 };
 
 //entities
